@@ -8,6 +8,7 @@ import hashlib, json, os, re
 
 ALGS = {"md5": "md5", "sha1": "sha1", "sha256": "sha256", "sha512": "sha512", "blake2b-512": "blake2b"}
 VERSION_RE = re.compile(r"^v(0*)([1-9][0-9]*)$")
+HEXLEN = {"md5": 32, "sha1": 40, "sha256": 64, "sha512": 128, "blake2b-512": 128}
 SPEC_TYPES = {"https://ocfl.io/1.0/spec/#inventory": "1.0", "https://ocfl.io/1.1/spec/#inventory": "1.1"}
 
 
@@ -26,6 +27,29 @@ def no_dup_hook(pairs):
             raise ValueError("duplicate key " + k)
         seen[k] = v
     return seen
+
+
+def spec_of(inv):
+    t = inv.get("type") if isinstance(inv, dict) else None
+    return SPEC_TYPES.get(t) if isinstance(t, str) else None
+
+
+def rfc3339(x):
+    """RFC 3339 section 5.6 date-time (T and Z in either case), with field ranges checked"""
+    if not isinstance(x, str):
+        return False
+    m = re.match(r"^(\d{4})-(\d\d)-(\d\d)[Tt](\d\d):(\d\d):(\d\d)(\.\d+)?([Zz]|[+-](\d\d):(\d\d))$", x)
+    if not m:
+        return False
+    y, mo, d, h, mi, sec = (int(m.group(i)) for i in range(1, 7))
+    if not (1 <= mo <= 12 and h <= 23 and mi <= 59 and sec <= 60):
+        return False
+    dim = [31, 29 if (y % 4 == 0 and (y % 100 != 0 or y % 400 == 0)) else 28, 31, 30, 31, 30, 31, 31, 30, 31, 30, 31][mo - 1]
+    if not 1 <= d <= dim:
+        return False
+    if m.group(9) is not None and not (int(m.group(9)) <= 23 and int(m.group(10)) <= 59):
+        return False
+    return True
 
 
 def bad_path(p):
@@ -55,14 +79,15 @@ def check_inventory(inv, problems, where, obj_spec=None):
         return None
     if not isinstance(inv["id"], str) or inv["id"] == "":
         bad("id must be a non-empty string")
-    if inv["type"] not in SPEC_TYPES:
+    if not isinstance(inv["type"], str) or inv["type"] not in SPEC_TYPES:
         bad("unknown type " + str(inv["type"]))
     alg = inv["digestAlgorithm"]
-    if alg not in ("sha256", "sha512"):
+    if not isinstance(alg, str) or alg not in ("sha256", "sha512"):
         bad("digestAlgorithm must be sha512 or sha256"); return None
     cdir = inv.get("contentDirectory", "content")
     if not isinstance(cdir, str) or "/" in cdir or cdir in ("", ".", ".."):
         bad("invalid contentDirectory %r" % (cdir,))
+        cdir = "content"
     head = inv["head"]
     versions = inv["versions"]
     manifest = inv["manifest"]
@@ -110,17 +135,19 @@ def check_inventory(inv, problems, where, obj_spec=None):
     for v, block in versions.items():
         if not isinstance(block, dict) or "created" not in block or "state" not in block:
             bad("version %s lacks created/state" % v); continue
-        if not re.match(r"^\d{4}-\d\d-\d\dT\d\d:\d\d:\d\d(\.\d+)?(Z|[+-]\d\d:\d\d)$", str(block["created"])):
+        if not rfc3339(block["created"]):
             bad("version %s created is not RFC3339 with seconds and zone: %s" % (v, block["created"]))
         st = block["state"]
         if not isinstance(st, dict):
             bad("state of %s not an object" % v); continue
         lps = []
         for dg, paths in st.items():
-            if dg.lower() not in lower:
+            if dg not in manifest:
                 bad("state digest of %s not in manifest" % v)
             used.add(dg.lower())
-            for p in paths if isinstance(paths, list) else []:
+            if not isinstance(paths, list):
+                bad("state entry of %s is not a list of paths" % v); continue
+            for p in paths:
                 if not isinstance(p, str) or bad_path(p):
                     bad("invalid logical path %r in %s" % (p, v))
                 lps.append(p)
@@ -136,9 +163,45 @@ def check_inventory(inv, problems, where, obj_spec=None):
                 bad("user without name")
     for dg in lower - used:
         bad("manifest digest %s… is not referenced by any version state" % dg[:12])
-    if "fixity" in inv and not isinstance(inv["fixity"], dict):
-        bad("fixity not an object")
+    if "fixity" in inv:
+        fx = inv["fixity"]
+        if not isinstance(fx, dict):
+            bad("fixity not an object")
+        else:
+            for falg, block in fx.items():
+                if not isinstance(block, dict):
+                    bad("fixity block %s not an object" % falg); continue
+                flower, fpaths = set(), set()
+                for dg, paths in block.items():
+                    if dg.lower() in flower:
+                        bad("fixity block %s lists a digest twice" % falg)
+                    flower.add(dg.lower())
+                    if falg in HEXLEN and not re.fullmatch(r"[0-9a-fA-F]{%d}" % HEXLEN[falg], dg):
+                        bad("fixity digest malformed for " + falg)
+                    if not isinstance(paths, list):
+                        bad("fixity entry is not a list"); continue
+                    for p in paths:
+                        if not isinstance(p, str) or bad_path(p):
+                            bad("invalid content path in fixity %r" % (p,)); continue
+                        if p in fpaths:
+                            bad("fixity block %s lists a path twice" % falg)
+                        fpaths.add(p)
+                        if p not in seen_paths:
+                            bad("fixity path %s is not in the manifest" % p)
     return alg, head, nums, cdir, seen_paths
+
+
+def same_state(inv_a, st_a, inv_b, st_b):
+    """states recorded with different digest algorithms: same logical paths, each bound to the same content file"""
+    def flat(inv, st):
+        out = {}
+        for dg, lps in (st or {}).items():
+            cps = set(inv["manifest"].get(dg, []))
+            for lp in lps if isinstance(lps, list) else []:
+                out[lp] = cps
+        return out
+    a, b = flat(inv_a, st_a), flat(inv_b, st_b)
+    return set(a) == set(b) and all(a[k] & b[k] for k in a)
 
 
 def norm_state(st):
@@ -189,7 +252,7 @@ def check_object(root, strict=True, fixity=True):
     if res is None:
         return problems
     alg, head, nums, cdir, cpaths = res
-    if SPEC_TYPES.get(inv.get("type")) != spec:
+    if spec_of(inv) != spec:
         problems.append("inventory type does not match the version declaration")
     check_sidecar(root, alg, raw, problems, "root")
     allowed = {decl[0], "inventory.json", "inventory.json." + alg, "extensions", "logs"} | set(nums.values())
@@ -199,6 +262,15 @@ def check_object(root, strict=True, fixity=True):
         p = os.path.join(root, e)
         if e in nums.values() and (not os.path.isdir(p) or os.path.islink(p)):
             problems.append("version %s is not a directory" % e)
+    ext = os.path.join(root, "extensions")
+    if os.path.lexists(ext):
+        if not os.path.isdir(ext) or os.path.islink(ext):
+            problems.append("extensions is not a directory")
+        else:
+            for e in os.listdir(ext):
+                if not os.path.isdir(os.path.join(ext, e)):
+                    problems.append("file in the extensions directory: " + e)
+    vinvs = {}
     for n, v in nums.items():
         vd = os.path.join(root, v)
         if not os.path.isdir(vd):
@@ -220,6 +292,7 @@ def check_object(root, strict=True, fixity=True):
                     r2 = check_inventory(vinv, vp, v)
                     problems += vp
                     if r2 and isinstance(vinv, dict):
+                        vinvs[n] = vinv
                         if vinv.get("head") != v:
                             problems.append("%s: inventory head is %s" % (v, vinv.get("head")))
                         if vinv.get("id") != inv.get("id"):
@@ -227,9 +300,13 @@ def check_object(root, strict=True, fixity=True):
                         if vinv.get("contentDirectory", "content") != cdir:
                             problems.append("%s: contentDirectory differs" % v)
                         for vv, block in vinv.get("versions", {}).items():
-                            if vv in inv["versions"] and norm_state(block.get("state")) != norm_state(inv["versions"][vv].get("state")) \
-                                    and vinv.get("digestAlgorithm") == alg:
-                                problems.append("%s: state of %s differs from the root inventory" % (v, vv))
+                            if vv not in inv["versions"]:
+                                problems.append("%s: version %s is not in the root inventory" % (v, vv)); continue
+                            if vinv.get("digestAlgorithm") == alg:
+                                if norm_state(block.get("state")) != norm_state(inv["versions"][vv].get("state")):
+                                    problems.append("%s: state of %s differs from the root inventory" % (v, vv))
+                            elif not same_state(vinv, block.get("state"), inv, inv["versions"][vv].get("state")):
+                                problems.append("%s: state of %s differs from the root inventory (other algorithm)" % (v, vv))
                         check_sidecar(vd, vinv.get("digestAlgorithm", alg), vraw, problems, v)
                 except Exception as e:
                     problems.append("%s: inventory does not parse: %s" % (v, e))
@@ -260,12 +337,48 @@ def check_object(root, strict=True, fixity=True):
         problems.append("manifest path without content file: " + p)
     for p in sorted(on_disk - cpaths):
         problems.append("content file not in manifest: " + p)
+    # spec versions never decrease along the version sequence; the root equals its head
+    last = None
+    for n in sorted(vinvs):
+        t = spec_of(vinvs[n])
+        if t and last and t < last:
+            problems.append("OCFL spec version decreases at " + nums[n])
+        last = t or last
+    rt = spec_of(inv)
+    if rt and last and rt < last:
+        problems.append("root inventory uses an older OCFL version than a version inventory")
+    # every earlier inventory's manifest covers exactly the files that existed at its version
+    for n, vinv in vinvs.items():
+        vman = {p for ps in vinv["manifest"].values() if isinstance(ps, list) for p in ps if isinstance(p, str)}
+        upto = {nums[k] for k in nums if k <= n}
+        there = {p for p in on_disk if p.split("/")[0] in upto}
+        for p in sorted(there - vman):
+            problems.append("%s: content file %s is not in this version's manifest" % (nums[n], p))
+        for p in sorted(vman - there):
+            problems.append("%s: manifest path %s has no content file" % (nums[n], p))
     if fixity:
-        for dg, paths in inv["manifest"].items():
-            for p in paths:
-                fp = os.path.join(root, p)
-                if p in on_disk and os.path.isfile(fp) and digest_file(fp, alg) != dg.lower():
-                    problems.append("content digest mismatch: " + p)
+        jobs = [(alg, inv["manifest"], "root")]
+        for n, vinv in vinvs.items():
+            if vinv.get("digestAlgorithm") != alg:
+                jobs.append((vinv.get("digestAlgorithm"), vinv["manifest"], nums[n]))
+        for who, i in [("root", inv)] + [(nums[n], vi) for n, vi in vinvs.items()]:
+            fx = i.get("fixity")
+            if isinstance(fx, dict):
+                for falg, block in fx.items():
+                    if falg in ALGS and isinstance(block, dict):
+                        jobs.append((falg, block, who + " fixity"))
+        cache = {}
+        for jalg, table, who in jobs:
+            for dg, paths in table.items():
+                for p in paths if isinstance(paths, list) else []:
+                    if not isinstance(p, str):
+                        continue
+                    fp = os.path.join(root, p)
+                    if p in on_disk and os.path.isfile(fp):
+                        if (p, jalg) not in cache:
+                            cache[(p, jalg)] = digest_file(fp, jalg)
+                        if cache[(p, jalg)] != dg.lower():
+                            problems.append("%s: content digest mismatch (%s): %s" % (who, jalg, p))
     return problems
 
 
